@@ -252,7 +252,7 @@ def probes_for(stats, rules, labels):
 # -----------------------------------------------------------------------------
 # Generation
 # -----------------------------------------------------------------------------
-def draw_rule(rng, alphabet, existing):
+def draw_rule(rng, alphabet, existing, maxlen=3):
     kind = weighted_choice(rng, [("normal", 5), ("wild", 3), ("exc", 2)])
     # bias towards interaction with rules already drawn
     base = None
@@ -262,16 +262,16 @@ def draw_rule(rng, alphabet, existing):
         if labels:
             base = labels[rng.randrange(len(labels)) :]
     if kind == "normal":
-        n = rng.choice([1, 1, 2, 2, 3])
+        n = rng.choice([1, 1, 2, 2, 3] + ([4] if maxlen > 3 else []))
         labels = [rng.choice(alphabet) for _ in range(n)]
         if base and rng.random() < 0.7:
             labels = ([rng.choice(alphabet)] if rng.random() < 0.7 else []) + base
-        return ".".join(labels[-3:])
+        return ".".join(labels[-maxlen:])
     if kind == "wild":
         parent = base if base and rng.random() < 0.7 else [rng.choice(alphabet) for _ in range(rng.choice([1, 1, 2]))]
-        return "*." + ".".join(parent[-2:])
+        return "*." + ".".join(parent[-(maxlen - 1):])
     parent = base if base and rng.random() < 0.8 else [rng.choice(alphabet) for _ in range(rng.choice([1, 1, 2]))]
-    return "!" + rng.choice(alphabet) + "." + ".".join(parent[-2:])
+    return "!" + rng.choice(alphabet) + "." + ".".join(parent[-(maxlen - 1):])
 
 
 def nested_exception(rule, rules):
@@ -286,10 +286,10 @@ def nested_exception(rule, rules):
     return False
 
 
-def draw_ruleset(rng, alphabet, n):
+def draw_ruleset(rng, alphabet, n, maxlen=3):
     rules = []
     for _ in range(n):
-        rule = draw_rule(rng, alphabet, rules)
+        rule = draw_rule(rng, alphabet, rules, maxlen)
         # two exception rules matching one host: the algorithm is silent
         if not nested_exception(rule, rules):
             rules.append(rule)
@@ -313,11 +313,14 @@ def gen_rules(crng, wrng, srng, tier):
     alphabet = crng.choice(ALPHABETS) if crng.random() < 0.5 else ALPHABETS[0]
     max_rules = 4 if tier == "quick" else 6
     n = crng.randint(1, max_rules)
-    rules = draw_ruleset(wrng, alphabet, n)
+    # mostly the property's scope (rules <= 3 labels, hosts <= 4); sometimes one
+    # label deeper, as the real list has 4- and 5-label rules
+    deep = crng.random() < 0.15
+    rules = draw_ruleset(wrng, alphabet, n, 4 if deep else 3)
     if crng.random() < 0.25:
         rules.append(wrng.choice(rules))  # duplicate
     k = crng.choice([1, 2, 3])
-    config = {"klass": "rules", "alphabet": alphabet, "tries": k}
+    config = {"klass": "rules", "alphabet": alphabet, "tries": k, "host_depth": 5 if deep else 4}
     adds = [{"op": "add", "rule": rule, "private": wrng.random() < 0.3} for rule in rules]
     orders = []
     for t in range(k):
@@ -340,7 +343,7 @@ def gen_rules(crng, wrng, srng, tier):
     events = []
     cursors = [0] * k
     n_readers = crng.choice([0, 1])
-    hosts = universe_for(alphabet)
+    hosts = universe_for(alphabet, config["host_depth"])
     while any(cursors[t] < len(adds) for t in range(k)):
         t = srng.randrange(k + n_readers)
         if t >= k:
@@ -560,7 +563,7 @@ class RulesRun(Base):
         k = config.get("tries", 1)
         self.tries = [SuffixTrie() for _ in range(k)]
         self.added = [[] for _ in range(k)]
-        self.hosts = universe_for(config["alphabet"])
+        self.hosts = universe_for(config["alphabet"], config.get("host_depth", 4))
 
     def sweep(self, t, op):
         rules = psl.RuleSet(self.added[t])
@@ -1057,7 +1060,7 @@ def shrink_config(case):
 MATCHERS = {}
 
 TIERS = {
-    "quick": {"runs": 12000, "chunk": 100, "budget_s": 70},
+    "quick": {"runs": 10000, "chunk": 100, "budget_s": 70},
     "thorough": {"runs": 250000, "chunk": 250, "budget_s": 1500},
 }
 PROBES = [
